@@ -24,6 +24,7 @@ structure Side where
 structure St where
   s : Sys := {}
   ns : Nat := 1
+  forged : Bool := false   -- a packet nobody sent was injected: the network assumption of C08 is void for this sequence
   pa : Side := {}
   pb : Side := {}
   deriving Inhabited
@@ -90,7 +91,7 @@ def predState (st : St) (x : Bool) (mine other : List (String Ã— String)) : St Ã
   let g (kv : List (String Ã— String)) (k : String) := (kv.lookup k).getD ""
   let sr := g mine "sr"
   let st' := st.setSide x { p with sr := sr }
-  if sr == "ok" && p.sr != "ok" && !p.connClosed then
+  if sr == "ok" && p.sr != "ok" && !p.connClosed && !st.forged then
     let rx := parseNat! (g other "rx")
     if !p.gate then (st', some s!"[C08] side {nm x}: Shutdown returned nil although no call had passed the state gate")
     else if rx < p.callAt then
@@ -154,6 +155,23 @@ def step (st : St) (op impl : List String) : St Ã— String Ã— Option String :=
     | some p =>
       if (st.s.ep (!x)).dead then fin st s!"{pktStr p} dropped" none
       else fin { st with s := st.s.step (.deliver x (parseNat! i)) } (pktStr p) none
+  | "forge" :: x :: kind :: args =>
+    let x := side x
+    let ch : Option Chunk := match kind, args with
+      | "SD", [c] => some (.shutdown (parseNat! c))
+      | "S", [c, g] =>
+        let gaps := if g == "-" then [] else (g.splitOn "+").filterMap fun ab => match ab.splitOn "-" with
+          | [a, b] => some (parseNat! a, parseNat! b)
+          | _ => none
+        some (.sack (parseNat! c) gaps)
+      | "D", [t, m, sid, ssn] => some (.data (parseNat! t) (parseNat! m) (parseNat! sid) (parseNat! ssn))
+      | _, _ => none
+    match ch with
+    | none => (st, "bad-op", none)
+    | some ch =>
+      let st := { st with forged := true }
+      if (st.s.ep (!x)).dead then fin st s!"{pktStr [ch]} dropped" none
+      else fin { st with s := st.s.put (!x) (handlePkt (st.s.ep (!x)) [ch]) [] } (pktStr [ch]) none
   | ["t2", x] =>
     let x := side x
     let fired := (st.s.ep x).t2 == 1
@@ -182,7 +200,8 @@ def step (st : St) (op impl : List String) : St Ã— String Ã— Option String :=
     let got := readsOn p sid
     let want := writesOn q sid
     let v :=
-      if ids.any (fun i => q.rejected.contains i && !(q.writes.any (Â·.1 == i))) then
+      if st.forged then none
+      else if ids.any (fun i => q.rejected.contains i && !(q.writes.any (Â·.1 == i))) then
         some s!"[C08,C18] side {nm x} stream {sid}: a message whose write was rejected was delivered"
       else if got != want.take got.length then
         some s!"[C08,C01] side {nm x} stream {sid}: messages read {got} are not a prefix of the messages written {want}"
@@ -200,7 +219,7 @@ def step (st : St) (op impl : List String) : St Ã— String Ã— Option String :=
   | ["fin", k] =>
     let g (kv : List (String Ã— String)) (key : String) := (kv.lookup key).getD ""
     let v :=
-      if k == "1" && (st.pa.gate || st.pb.gate) then
+      if k == "1" && (st.pa.gate || st.pb.gate) && !st.forged then
         if g kvA "st" != "0" || g kvA "dead" != "1" then some s!"[C08] fault-free tail after a Shutdown call, but side A ends in state {g kvA "st"} (dead={g kvA "dead"})"
         else if g kvB "st" != "0" || g kvB "dead" != "1" then some s!"[C08] fault-free tail after a Shutdown call, but side B ends in state {g kvB "st"} (dead={g kvB "dead"})"
         else none
